@@ -3,7 +3,7 @@
 set -e
 cd "$(dirname "$0")"
 mkdir -p _build
-cp extracted/model.ml extracted/model.mli codec.ml driver.ml _build/
+cp extracted/model.ml extracted/model.mli codec.ml astprint.ml driver.ml _build/
 cd _build
-ocamlfind ocamlopt -O2 -package zarith -linkpkg -w -a model.mli model.ml codec.ml driver.ml -o ../model_driver 2>&1 || \
-ocamlfind ocamlopt -package zarith -linkpkg -w -a model.mli model.ml codec.ml driver.ml -o ../model_driver
+ocamlfind ocamlopt -O2 -package zarith -linkpkg -w -a model.mli model.ml codec.ml astprint.ml driver.ml -o ../model_driver 2>&1 || \
+ocamlfind ocamlopt -package zarith -linkpkg -w -a model.mli model.ml codec.ml astprint.ml driver.ml -o ../model_driver
